@@ -1,7 +1,7 @@
 SPECIFICATION Spec
 CONSTANTS
-  Mode = "bytes"
-  L = 3
+  Mode = "stok"
+  K = 4
 ACTION_CONSTRAINT PrintVector
 CHECK_DEADLOCK FALSE
-INVARIANTS C10_Stable C11_RoundTrip C11_U16
+INVARIANTS C17_FoldIsDecl C17_OrderIndependent
